@@ -366,3 +366,14 @@ def c16(run):
     run.validate("Trace_BlockCache", trace)
     return finish(run, assumptions=["block / transaction hashes and serialisations are 'fresh' facts recomputed by the harness from the underlying wire message (wire.MsgBlock / wire.MsgTx)",
                                     "object identity is observed as pointer identity of the returned wrappers / hash objects / byte slices"])
+
+
+# --------------------------------------------------------------------------- C17
+@prop("C17", "Trace_Amount")
+def c17(run):
+    run.build()
+    run.mc("MC_Amount")
+    trace, _ = run.exec("C17")
+    run.validate("Trace_Amount", trace)
+    return finish(run, assumptions=["a float64 is its IEEE-754 decomposition (sign, 53-bit significand, exponent) logged by the harness; all rounding is recomputed exactly on limb naturals",
+                                    "the space (all doubles with |f*1e8| < 2^62, all amounts up to 2.1e15) is explored structurally and randomly, not exhaustively"])
